@@ -59,13 +59,15 @@ def parseCall (j : Json) : R CallRec := do
 def parseWake (j : Json) : R (List (Nat × List Ext)) := do
   (← arr j).mapM (fun b => do return (← fldNat b "d", ← (← fldArr b "x").mapM parseExt))
 
-def mkEnv (advs : Array Nat) (calls : Array CallRec) (wakes : Array (List (Nat × List Ext))) : Env where
+def mkEnv (advs : Array Nat) (calls : Array CallRec) (wakes : Array (List (Nat × List Ext)))
+    (gaps : Array (List Ext)) : Env where
   adv k := advs.getD k 0
   dur k := (calls.getD k default).d
   out k := (calls.getD k default).out
   touch k := (calls.getD k default).touch
   ext k := (calls.getD k default).ext
   wake k := wakes.getD k []
+  gap k := gaps.getD k []
 
 def parseMod (j : Json) : R (Mod × List (Nat × Nat)) := do
   let iv ← fldNat j "interval"
@@ -94,12 +96,16 @@ def loopTurns (env : Env) (nReads : Nat) : Nat → PollState → Array Event →
                      jarr (σ.mods.map (fun m => jarr [jnat m.interval, jnat m.lastMain, jnat m.lastSlow]))]
       loopTurns env nReads fuel r.σ (acc ++ r.evs.toArray) (dbg.push d)
 
+/-- `["pi", t, v]` = `pollinterval := v` at `t`, `["fp", t, flag, v]` = `setFastPoll(flag, v)` at `t` -/
+def parseCmd (j : Json) : R Cmd := do
+  match (← arr j) with
+  | [.str "pi", t, v] => return .setInterval (← t.getNat?) (← v.getNat?)
+  | [.str "fp", t, fl, v] => return .setFast (← t.getNat?) (← fl.getBool?) (← v.getNat?)
+  | _ => throw s!"bad cmd {j.compress}"
+
 def parseModInfo (j : Json) : R ModInfo := do
-  let ivs ← (← fldArr j "intervals").mapM (fun x => do
-    match (← arr x) with
-    | [t, i] => return (← t.getNat?, ← i.getNat?)
-    | _ => throw "bad interval entry")
-  return ⟨← fldBool j "enabled", ← fldNat j "slow", ← fldNats j "polled", ivs⟩
+  return ⟨← fldBool j "enabled", ← fldNat j "slow", ← fldNats j "polled", ← fldNat j "pollinterval",
+          ← (← fldArr j "cmds").mapM parseCmd⟩
 
 def parseTrace (j : Json) : R Trace := do
   return { mods := ← (← fldArr j "mods").mapM parseModInfo
@@ -145,7 +151,8 @@ def handle (j : Json) : R Json := do
     let advs ← fldNats j "adv"
     let calls ← (← fldArr j "calls").mapM parseCall
     let wakes ← (← fldArr j "waits").mapM parseWake
-    let env := mkEnv advs.toArray calls.toArray wakes.toArray
+    let gaps ← (← fldArr j "gaps").mapM (fun g => do (← arr g).mapM parseExt)
+    let env := mkEnv advs.toArray calls.toArray wakes.toArray gaps.toArray
     let σ0 : PollState := { clock := ← fldNat j "clock", nRead := 0, nCall := 0, nWait := 0, trig := false,
                             mods := ms.map (·.1), toPoll := none, stamp := initStamp (ms.map (·.2)),
                             refreshed := initStamp (ms.map (·.2)) }
@@ -165,6 +172,7 @@ def handle (j : Json) : R Json := do
                        ("alive", Json.bool a), ("nopoll", Json.bool n), ("main_gap", Json.bool g),
                        ("slow_refresh", Json.bool s),
                        ("sweep", jnat (sweepOf tr)), ("npolled", jnat (nPolled tr.mods)),
+                       ("intervals", jarr (tr.mods.map (fun mi => jarr (mi.intervals.map (fun e => jarr [jnat e.1, jnat e.2]))))),
                        ("bad_main", jarr (if g then [] else worstMain tr)),
                        ("bad_slow", jarr (if s then [] else worstSlow tr)),
                        ("bad_nopoll", jarr (if n then [] else badNoPoll tr))]
